@@ -279,7 +279,7 @@ theorem C19_warn_in_loop_each_iteration (prog : List Stmts) (file x l : Nat) (en
       rw [execStmts, execStmt]
       simp only [Cfg.current, Bool.false_and, Bool.false_eq_true, if_false]
       rw [evalExpr]
-      simp [lookupVar, inspect, execStmts]
+      simp [lookupVar, inspect, logText, execStmts]
     obtain ⟨st', h1, h2⟩ := ih (f + 3) (i + dir) (st.doWarn (Cfg.current false) file l (intStr i)) (by omega)
     refine ⟨st', ?_, ?_⟩
     · rw [show f + 4 = (f + 3) + 1 from rfl, execFor, hbody]
